@@ -128,22 +128,46 @@ impl<'a> GroupResource<'a> {
 		self.resources.root()?.get_dir(self.ty().into())?.get_dir(id.into())?.first_data()?.bytes().map_err(FindError::Pe)
 	}
 	/// Reassemble the file.
+	///
+	/// An icon group is the directory of the `.ico` file with the image offsets replaced by resource ids.
+	/// A cursor group is stored differently from its `.cur` file: its entries hold the width and the height
+	/// (of both masks together) as 16-bit values, and the hotspot of the file's entry sits in front of the image data.
 	#[cfg(feature = "std")]
 	pub fn write(&self, dest: &mut dyn io::Write) -> io::Result<()> {
 		// Start by appending the header
 		dest.write(dataview::bytes(self.image))?;
 		// Write all the icon entries
 		let entries = self.entries();
+		let is_cursor = self.ty() == ResourceType::Cursor;
 		let mut image_offset = (6 + entries.len() * 16) as u32;
 		for entry in entries {
 			// Fixup the dwImageOffset field of the icon entry
 			// NOTE! It is expected that the actual icon data size matches dwBytesInRes information!
 			let mut icon_entry = [0u32; 4];
 			dataview::bytes_mut(&mut icon_entry)[..14].copy_from_slice(dataview::bytes(entry));
+			let mut image_size = entry.bytes_in_resource();
+			if is_cursor {
+				// Group entry: wWidth, wHeight (twice the height), wPlanes, wBitCount, dwBytesInRes (including the hotspot)
+				// File entry: bWidth, bHeight, bColorCount, bReserved, wXHotspot, wYHotspot, dwBytesInRes
+				let hotspot = self.image(entry.nId).ok().and_then(|bytes| bytes.get(..4));
+				let (hotspot, size) = match (hotspot, image_size.checked_sub(4)) {
+					(Some(hotspot), Some(size)) => (hotspot, size),
+					_ => return Err(io::Error::new(io::ErrorKind::InvalidData, "cursor resource without a hotspot")),
+				};
+				let height = u16::from_le_bytes([entry.bColorCount, entry.bReserved]);
+				let cursor_entry = dataview::bytes_mut(&mut icon_entry);
+				// bWidth is the low byte of wWidth already
+				cursor_entry[1] = (height / 2) as u8;
+				cursor_entry[2] = 0;
+				cursor_entry[3] = 0;
+				cursor_entry[4..8].copy_from_slice(hotspot);
+				cursor_entry[8..12].copy_from_slice(&size.to_le_bytes());
+				image_size = size;
+			}
 			icon_entry[3] = image_offset;
 			// The offsets in the file are 32-bit
 			image_offset = image_offset
-				.checked_add(entry.bytes_in_resource())
+				.checked_add(image_size)
 				.ok_or_else(|| io::Error::new(io::ErrorKind::InvalidData, "group resource does not fit in a 4 GiB file"))?;
 			dest.write(dataview::bytes(&icon_entry))?;
 		}
@@ -154,6 +178,8 @@ impl<'a> GroupResource<'a> {
 			// Ignoring this check may lead to corrupt icon files
 			if let Ok(bytes) = self.image(entry.nId) {
 				// assert_eq!(entry.bytes_in_resource() as usize, bytes.len());
+				// The hotspot in front of a cursor image went into its entry
+				let bytes = if is_cursor { bytes.get(4..).unwrap_or(&[]) } else { bytes };
 				dest.write(bytes)?;
 			}
 		}
